@@ -2,7 +2,8 @@
    Only statements, each closed by `exact <lemma>`, with Print Assumptions beneath. *)
 From Common Require Import Bytes Outcome.
 From Scale Require Import Compact CompactProofs Types Spec Codec EncodeProofs MonadLemmas RoundTrip Prefix Total Cost.
-From C12 Require Import Model Proofs.
+From Scale Require Import WellTyped CostExcess.
+From C12 Require Import Model Proofs ProofsExcess.
 Local Open Scope N_scope.
 
 (* Universe: Scale/Types.v; specification: Scale/Spec.v; model of pkg/scale decode.go:
@@ -94,6 +95,26 @@ Theorem C12_alloc_partial : forall t bs,
   wf_ty t = true -> bytes_free t = true -> decode_cost current t bs <= (ca t + cb t) * (1 + len bs).
 Proof. exact alloc_current_partial. Qed.
 Print Assumptions C12_alloc_partial.
+
+(* round 5: the excess of the CURRENT tree over the linear bound, named.  A decode that succeeds
+   (for any type without maps) requested at most the linear bound PLUS the total length of the
+   byte strings / strings in the value it returned - the lengths decodeBytes declared and accepted,
+   zero-filled or not.  So the declared byte-string lengths (the guard of finding bytes-overrun)
+   are the only source of super-linear allocation.  Failing decodes are not covered by this
+   statement (for those: C12_alloc_partial, types without byte strings). *)
+Theorem C12_alloc_excess : forall t bs v r,
+  wf_ty t = true -> map_free t = true -> decode_res current t bs = Ok (v, r) ->
+  decode_cost current t bs <= (ca t + cb t) * (1 + len bs) + bytes_total v.
+Proof. exact alloc_excess. Qed.
+Print Assumptions C12_alloc_excess.
+
+Example C12_alloc_excess_nonvacuous :
+  let bs := [b 253; b 255; b 65] in
+  let v := VBytes (b 65 :: repeat (b 0) (N.to_nat 16382)) in
+  decode_res current TBytes bs = Ok (v, []) /\ bytes_total v = 16383 /\
+  16383 <= decode_cost current TBytes bs /\
+  decode_cost current TBytes bs <= (ca TBytes + cb TBytes) * (1 + len bs) + bytes_total v.
+Proof. exact alloc_excess_witness. Qed.
 
 (* finding bytes-overrun: with []byte the current tree has no such bound *)
 Theorem C12_alloc_refuted :
